@@ -143,6 +143,8 @@ def scripts_crash(tier, rng, prefix):
         big.append((f"{prefix}big{j}", [rng.choice(["cfg", "cfg mr=5", "cfg ms=200000"]), "open", "app 1,0,aa 1,1,bb", "flush 1",
                                        "widle"] + tail + ["flush 2", "w ok", "w ok"]))
     named += big
+    # more than a queue-full of requests against a slow worker, then an acknowledged flush
+    named.append((f"{prefix}burst", ["cfg", "open", f"burst {1100 + rng.below(300)} 1 0", "flush 9000", "widle"]))
     lays = layouts(named)
     out = []
     for name, pre in named:
